@@ -23,6 +23,13 @@ CONSTANTS Users, SvcNames, Eids, Shortcuts, MaxSess, WithFaults
 
 Slots   == 1..MaxSess
 Pws     == {"p1", "e"}        \* "e" is the empty password: a legal value of the password field
+\* "L" is a password longer than the 72 bytes bcrypt can hash: the server refuses to store it (500);
+\* "L2" agrees with L on the first 72 bytes and differs after them: it is never anybody's password
+PutPws   == Pws \cup {"keep", "L"}
+LoginPws == Pws \cup {"L2"}
+\* what an AuthnRequest may name as its Issuer: an entity ID, or (a confusion the registry must not
+\* fall for - it is keyed by service name, requests are resolved by entity ID) the NAME of a service
+Issuers  == Eids \cup { "n:" \o n : n \in SvcNames }
 Cookies == {"none", "forged"} \cup { "k" \o ToString(k) : k \in Slots }
 SlotOf(ck) == CHOOSE k \in Slots : ck = "k" \o ToString(k)
 IsSlot(ck) == \E k \in Slots : ck = "k" \o ToString(k)
@@ -63,9 +70,12 @@ Unch(S) == UNCHANGED S
 
 (****************************** management *********************************)
 PutUser(u, pw, ver) ==
-  /\ users' = [users EXCEPT ![u] = [pw |-> IF pw = "keep" THEN (IF users[u].pw = "absent" THEN "none" ELSE users[u].pw) ELSE pw,
-                                    ver |-> ver]]
-  /\ act' = [n |-> "PutUser", u |-> u, pw |-> pw, ver |-> ver] /\ reply' = R(204, "empty")
+  /\ act' = [n |-> "PutUser", u |-> u, pw |-> pw, ver |-> ver]
+  /\ IF pw = "L"
+       THEN reply' = R(500, "error") /\ Unch(users)          \* bcrypt: password too long; nothing is stored
+       ELSE /\ users' = [users EXCEPT ![u] = [pw |-> IF pw = "keep" THEN (IF users[u].pw = "absent" THEN "none" ELSE users[u].pw) ELSE pw,
+                                               ver |-> ver]]
+            /\ reply' = R(204, "empty")
   /\ Unch(<<services, registry, shortcuts, sessions>>)
 DeleteUser(u) ==
   /\ users' = [users EXCEPT ![u] = NoUser]
@@ -169,7 +179,7 @@ Restart == /\ registry' = services
            /\ Unch(<<users, services, shortcuts, sessions>>)
 
 Request ==
-  \/ \E u \in Users, pw \in Pws \cup {"keep"}, v \in {1, 2} : PutUser(u, pw, v)
+  \/ \E u \in Users, pw \in PutPws, v \in {1, 2} : PutUser(u, pw, v)
   \/ \E u \in Users : DeleteUser(u) \/ GetUser(u)
   \/ \E n \in SvcNames, e \in Eids : PutService(n, e)
   \/ \E n \in SvcNames : DeleteService(n) \/ GetService(n)
@@ -177,10 +187,10 @@ Request ==
   \/ \E c \in Shortcuts : DeleteShortcut(c)
   \/ \E k \in Slots : DeleteSession(k)
   \/ \E w \in {"users", "services", "shortcuts", "sessions"} : List(w)
-  \/ \E u \in Users, pw \in Pws : Login(u, pw)
+  \/ \E u \in Users, pw \in LoginPws : Login(u, pw)
   \/ \E ck \in Cookies : LoginCookie(ck)
-  \/ \E e \in Eids, ck \in Cookies : SSO(e, ck)
-  \/ \E e \in Eids, u \in Users, pw \in Pws : SSOLogin(e, u, pw)
+  \/ \E e \in Issuers, ck \in Cookies : SSO(e, ck)
+  \/ \E e \in Issuers, u \in Users, pw \in LoginPws : SSOLogin(e, u, pw)
   \/ \E c \in Shortcuts, ck \in Cookies : Shortcut(c, ck)
 
 \* "the n-th store operation of this request fails" (not-found or I/O error).  A handler
@@ -189,14 +199,14 @@ Request ==
 \* beyond the handler's last operation the request is an ordinary Request.  The harness
 \* derives the fault variants of every emitted edge and checks exactly this.
 ActShapes ==
-  { [n |-> "PutUser", u |-> u, pw |-> pw, ver |-> v] : u \in Users, pw \in Pws \cup {"keep"}, v \in {1, 2} }
+  { [n |-> "PutUser", u |-> u, pw |-> pw, ver |-> v] : u \in Users, pw \in PutPws, v \in {1, 2} }
   \cup { [n |-> "GetUser", u |-> u] : u \in Users }
   \cup { [n |-> "PutService", svc |-> x, e |-> e] : x \in SvcNames, e \in Eids }
   \cup { [n |-> "DeleteService", svc |-> x] : x \in SvcNames }
-  \cup { [n |-> "Login", u |-> u, pw |-> pw] : u \in Users, pw \in Pws }
+  \cup { [n |-> "Login", u |-> u, pw |-> pw] : u \in Users, pw \in LoginPws }
   \cup { [n |-> "LoginCookie", ck |-> ck] : ck \in Cookies }
-  \cup { [n |-> "SSO", e |-> e, ck |-> ck] : e \in Eids, ck \in Cookies }
-  \cup { [n |-> "SSOLogin", e |-> e, u |-> u, pw |-> pw] : e \in Eids, u \in Users, pw \in Pws }
+  \cup { [n |-> "SSO", e |-> e, ck |-> ck] : e \in Issuers, ck \in Cookies }
+  \cup { [n |-> "SSOLogin", e |-> e, u |-> u, pw |-> pw] : e \in Issuers, u \in Users, pw \in LoginPws }
   \cup { [n |-> "Shortcut", c |-> c, ck |-> ck] : c \in Shortcuts, ck \in Cookies }
 FailedRequest ==
   /\ WithFaults
